@@ -757,11 +757,42 @@ func init() {
 //   fs      = sandbox before extraction: source tree, empty output directory
 //   roots   = ((tn <utree>)): what `car create` builds from the source, as the walk sees it
 //   opts    = (n<version 1|2> n<no-wrap> n<mode: 0 -f file, 1 stdin from a file, 2 stdin from a pipe>)
-//   src     = (b<source argument of car create> ((b<digest> n<seed> n<len>) ...))   big-file recipes
+//   src     = (b<source argument of car create> ((b<digest> n<seed> n<len> n<zero tail> n<chunk repeats> b<explicit> n<zero head>) ...))
+//             recipes for contents longer than 64 bytes (the fs value carries only their digest)
 // observation: (status realroot fs-after (n<roots> n<printed = header root> n<root != proxy> n<root block present>))
 const proxyRootStr = "bafybeihdwdcefgh4dqkjv67uzcmw7ojee6xedzdetojuzjevtenxquvyku"
 
 func bigFileData(seed uint64, n int) []byte { return NewRNG(seed).Bytes(n) }
+
+// contentOf: explicit bytes | one random 256 KiB chunk repeated | random bytes whose last ztail bytes are zero
+func contentOf(seed uint64, n, ztail, rep int, explicit []byte, zhead ...int) []byte {
+	if len(explicit) > 0 {
+		return explicit
+	}
+	var d []byte
+	if rep > 0 {
+		ch := bigFileData(seed, 262144)
+		for len(d) < n {
+			d = append(d, ch...)
+		}
+		d = d[:n]
+	} else if ztail >= n {
+		d = make([]byte, n)
+	} else {
+		d = bigFileData(seed, n)
+	}
+	for i := n - ztail; i < n; i++ {
+		if i >= 0 {
+			d[i] = 0
+		}
+	}
+	if len(zhead) > 0 {
+		for i := 0; i < zhead[0] && i < n; i++ {
+			d[i] = 0
+		}
+	}
+	return d
+}
 
 func runCreateExtractCase(c *Ctx, in Val) Val {
 	sb := newSandbox(c)
@@ -769,7 +800,7 @@ func runCreateExtractCase(c *Ctx, in Val) Val {
 	// regenerate big files from their recipes
 	recipes := map[string][]byte{}
 	for _, h := range vl(vnth(vnth(in, 6), 1)) {
-		recipes[string(vb(vnth(h, 0)))] = bigFileData(vn(vnth(h, 1)), int(vn(vnth(h, 2))))
+		recipes[string(vb(vnth(h, 0)))] = contentOf(vn(vnth(h, 1)), int(vn(vnth(h, 2))), int(vn(vnth(h, 3))), int(vn(vnth(h, 4))), vb(vnth(h, 5)), int(vn(vnth(h, 6))))
 	}
 	fs := VL{}
 	for _, e := range vl(vnth(in, 0)) {
